@@ -137,6 +137,94 @@ func skeleton(ws []witness, exotic bool) []byte {
 	return []byte(b.String())
 }
 
+// fixedRepeated: mappings that occur several times as data (the alias recipe writes them
+// once), reached through references that stop at a component and through references that
+// go deeper (the enclosing schema is then decoded from the node tree by another path).
+const fixedRepeated = `openapi: 3.0.3
+info: {title: repeated, version: "1"}
+paths:
+  /a:
+    get:
+      operationId: getA
+      responses:
+        "200":
+          description: ok
+          content:
+            application/json:
+              schema: {$ref: "#/components/schemas/Pet"}
+        "404":
+          description: missing
+          content:
+            application/json:
+              schema: {$ref: "#/components/schemas/Pet/properties/owner"}
+  /b:
+    get:
+      operationId: getB
+      responses:
+        "200":
+          description: ok
+          content:
+            application/json:
+              schema: {$ref: "#/components/schemas/Owner2"}
+components:
+  schemas:
+    Pet:
+      type: object
+      properties:
+        name: {type: string, maxLength: 10}
+        nick: {type: string, maxLength: 10}
+        owner:
+          type: object
+          properties:
+            first: {type: string, minLength: 1}
+            last: {type: string, minLength: 1}
+            address:
+              type: object
+              properties:
+                street: {type: string, minLength: 1}
+    Owner2:
+      type: object
+      properties:
+        first: {type: string, minLength: 1}
+        home:
+          type: object
+          properties:
+            street: {type: string, minLength: 1}
+`
+
+// fixedDupOp / fixedDupEnum: invalid documents whose diagnostic names two places; in the
+// compact and flow spellings both places share a line, in the block ones they do not.
+const fixedDupOp = `openapi: 3.0.3
+info: {title: dup, version: "1"}
+paths:
+  /a:
+    get:
+      operationId: same
+      responses: {"200": {description: ok}}
+  /b:
+    get:
+      operationId: same
+      responses: {"200": {description: ok}}
+`
+
+const fixedDupEnum = `openapi: 3.0.3
+info: {title: dup, version: "1"}
+paths:
+  /a:
+    get:
+      operationId: getA
+      parameters:
+        - name: q
+          in: query
+          schema:
+            type: string
+            enum:
+              - cat
+              - dog
+              - cat
+      responses: {"200": {description: ok}}
+`
+
 type docCase struct {
 	name string
 	data []byte
@@ -212,6 +300,8 @@ func Check(r *core.Run) error {
 		}
 	}
 	docs = append(docs, docCase{"skeleton-plain", skeleton(ws, false)}, docCase{"skeleton-exotic", skeleton(ws, true)})
+	// fixed shapes that get every recipe in both tiers (see allRecipes below)
+	docs = append(docs, docCase{"fixed-repeated-mappings", []byte(fixedRepeated)}, docCase{"fixed-duplicate-operation-id", []byte(fixedDupOp)}, docCase{"fixed-duplicate-enum-value", []byte(fixedDupEnum)})
 	// invalid mutants of the first documents: a diagnostic has to survive re-spelling too
 	rng := rand.New(rand.NewPCG(uint64(r.Seed), 0xC17))
 	nMut := 12
@@ -277,7 +367,7 @@ func Check(r *core.Run) error {
 		}
 		idx := rng.Perm(len(recipes))
 		for _, k := range idx {
-			if len(pick) >= perDoc+2 {
+			if len(pick) >= perDoc+2 && !strings.HasPrefix(d.name, "fixed-") {
 				break
 			}
 			if recipes[k].JSON == "none" {
